@@ -5,6 +5,7 @@ package standard
 import (
 	"context"
 	"errors"
+	"sync"
 
 	"github.com/attestantio/go-eth2-client/api"
 	apiv1 "github.com/attestantio/go-eth2-client/api/v1"
@@ -14,7 +15,6 @@ import (
 	"github.com/attestantio/vouch/services/attestationaggregator"
 	"github.com/attestantio/vouch/services/beaconcommitteesubscriber"
 	nullmetrics "github.com/attestantio/vouch/services/metrics/null"
-	"github.com/rs/zerolog"
 	e2wtypes "github.com/wealdtech/go-eth2-wallet-types/v2"
 )
 
@@ -30,6 +30,8 @@ type c14Agg struct {
 	fail     bool
 	failSlot map[phase0.Slot]bool // slots whose selection signing fails
 	flag     map[uint64]bool      // validator index -> aggregator
+	sizes    map[uint64]uint64    // validator index -> the committee size its selection was judged with
+	mu       sync.Mutex           // the slots of an epoch are handled by goroutines of their own
 }
 
 func (h *c14Agg) Aggregate(_ context.Context, _ *attestationaggregator.Duty) {}
@@ -42,6 +44,11 @@ func (h *c14Agg) AggregatorsAndSignatures(_ context.Context, accounts []e2wtypes
 	flags := make([]bool, len(accounts))
 	for i, a := range accounts {
 		flags[i] = h.flag[a.(*vstub.Account).VIndex]
+		if h.sizes != nil && i < len(sizes) {
+			h.mu.Lock()
+			h.sizes[a.(*vstub.Account).VIndex] = sizes[i]
+			h.mu.Unlock()
+		}
 		sigs[i][0] = byte(a.(*vstub.Account).VIndex)
 	}
 	return sigs, flags, nil
@@ -56,10 +63,13 @@ func (h *c14Submitter) SubmitBeaconCommitteeSubscriptions(_ context.Context, sub
 	return nil
 }
 
+// c14Length: the committees of a slot differ in size (and in the modulus of the selection rule).
+func c14Length(c phase0.CommitteeIndex) uint64 { return 127 + uint64(c)*129 }
+
 // c14New builds the subscriber the way main does: through New.
 func c14New(ct *vstub.ChainTime, processConcurrency int64, dp *c14Duties, agg *c14Agg, sub *c14Submitter) *Service {
 	s, err := New(context.Background(),
-		WithLogLevel(zerolog.Disabled),
+		WithLogLevel(vnd.LogLevel()),
 		WithMonitor(&nullmetrics.Service{}),
 		WithProcessConcurrency(processConcurrency),
 		WithChainTimeService(ct),
@@ -80,7 +90,7 @@ func VerifC14_Subscribe3() { c14Subscribe(3) }
 func c14Subscribe(m int) {
 	ct := vstub.NewChainTime(0)
 	dp := &c14Duties{}
-	agg := &c14Agg{flag: map[uint64]bool{}}
+	agg := &c14Agg{flag: map[uint64]bool{}, sizes: map[uint64]uint64{}}
 	sub := &c14Submitter{}
 	s := c14New(ct, 2, dp, agg, sub)
 	accounts := map[phase0.ValidatorIndex]e2wtypes.Account{}
@@ -97,7 +107,7 @@ func c14Subscribe(m int) {
 		agg.flag[uint64(v)] = vnd.Bool("is-aggregator")
 		accounts[v] = &vstub.Account{VIndex: uint64(v), Nm: "acc"}
 		dp.duties = append(dp.duties, &apiv1.AttesterDuty{Slot: slots[i], ValidatorIndex: v, CommitteeIndex: comms[i],
-			CommitteeLength: 16, CommitteesAtSlot: 2, ValidatorCommitteeIndex: uint64(i)})
+			CommitteeLength: c14Length(comms[i]), CommitteesAtSlot: 2, ValidatorCommitteeIndex: uint64(i)})
 	}
 	info, err := s.Subscribe(context.Background(), phase0.Epoch(uint64(ct.Cur)/ct.SPE), accounts)
 	vnd.Assert(err == nil, "C14.subscribe.no-error")
@@ -121,6 +131,9 @@ func c14Subscribe(m int) {
 				expected++
 			}
 			vnd.Cover("C14.subscribe.future-duty")
+			// the selection rule was applied with the size of this validator's own committee
+			sz, asked := agg.sizes[uint64(10+i)]
+			vnd.Assert(asked && sz == c14Length(comms[i]), "C14.subscribe.selection-judged-with-the-validators-own-committee-size")
 			// exactly one entry for this (slot, committee)
 			n := 0
 			for _, p := range payload {
